@@ -460,7 +460,7 @@ func c03Setup(t *rapid.T, salt string) *c03Env {
 
 // multiAfterOwnGrant / multiBeforeOwnGrant: the signer holds a fee grant from the attacker's own second account and puts
 // a legitimate message in that account's name (covered by the grant) before / after the forged one in the same tx.
-var c03Routes = []string{"plain", "multi", "authz1", "authz2", "plainByGranteeOfAttacker", "multiAfterOwnGrant", "multiBeforeOwnGrant"}
+var c03Routes = []string{"plain", "multi", "authz1", "authz2", "plainByGranteeOfAttacker", "multiAfterOwnGrant", "multiBeforeOwnGrant", "authzSiblings", "multiAfterOwnMessage"}
 
 func c03Groups() []string {
 	seen := map[string]bool{}
@@ -589,6 +589,15 @@ func c03Case(t *rapid.T, tpls []c03Template) {
 			} else {
 				msgs = []sdk.Msg{msg, own}
 			}
+		case "multiAfterOwnMessage":
+			// the forged message follows a perfectly legitimate message of the signer itself in the same transaction
+			own := &tftypes.MsgCreateDenom{Metadata: chain.MD(signer), Subdenom: fmt.Sprintf("self%d", i)}
+			msgs = []sdk.Msg{own, msg}
+		case "authzSiblings":
+			// two MsgExec wrappers on one level: the forged message in the first, a harmless transfer in the second
+			ex1 := authz.NewMsgExec(signer.Addr, []sdk.Msg{msg})
+			ex2 := authz.NewMsgExec(signer.Addr, []sdk.Msg{banktypes.NewMsgSend(signer.Addr, signer.Addr, sdk.NewCoins(sdk.NewCoin(chain.BondDenom, sdkmath.NewInt(1))))})
+			msgs = []sdk.Msg{&ex1, &ex2}
 		case "authz1":
 			ex := authz.NewMsgExec(signer.Addr, []sdk.Msg{msg})
 			msgs = []sdk.Msg{&ex}
